@@ -35,6 +35,40 @@ def check(R, X, cfg, timed=False, tag="token"):
             R.fail("%s/transpose" % tag, "'before' block is not the transpose of the 'after' block", **case)
 
 
+def check_multiset(R, X, cfg):
+    """X: list of documents, each a list of multisets (lists of tokens).  Fixed radii, no pruning: the vocabulary is every token."""
+    from vectorizers import MultiSetCooccurrenceVectorizer
+    from spec import cooc as S
+    key = ("multiset", repr(X), repr(cfg))
+    case = dict(X=X, cfg=cfg, multiset=True)
+    kw = dict(cfg)
+    if isinstance(kw.get("window_orientations"), list):
+        n = len(kw["window_orientations"])
+        if isinstance(kw.get("kernel_functions"), str):
+            kw["kernel_functions"] = [kw["kernel_functions"]] * n
+        kw["window_functions"] = ["fixed"] * n
+    try:
+        v = MultiSetCooccurrenceVectorizer(**kw)
+        M_api = np.asarray(v.fit_transform([[list(m) for m in D] for D in X]).todense(), dtype=np.float64)
+    except (IndexError, UnboundLocalError, KeyError, ZeroDivisionError) as ex:
+        R.case(key)
+        R.fail("multiset/%s" % type(ex).__name__, "fit_transform raises %s: %s" % (type(ex).__name__, str(ex)[:100]), **case)
+        return
+    d = v.token_label_dictionary_
+    docs = [[[d[t] for t in m] for m in D] for D in X]
+    blocks = CC.blocks_of(dict(cfg, window_functions="fixed"))
+    M_ref = S.multiset_cooccurrence(docs, len(d), blocks, cfg.get("normalize_windows", True))
+    R.case(key, nontrivial=bool(M_ref.any()), sample=dict(case, matrix=M_api.tolist()) if M_ref.any() else None)
+    if M_api.shape != M_ref.shape:
+        R.fail("multiset/shape", "shape %r, expected %r" % (M_api.shape, M_ref.shape), **case)
+    elif not np.allclose(M_api, M_ref, rtol=2e-5, atol=1e-6):
+        i, j = np.unravel_index(np.argmax(np.abs(M_api - M_ref)), M_api.shape)
+        lab = {i_: t for t, i_ in d.items()}
+        # a kernel offset > 0 has its own failure class
+        fid = "multiset/definition-offset" if any(b["kargs"].get("offset", 0) > 0 for b in blocks) else "multiset/definition"
+        R.fail(fid, "entry (%s, col %d) = %r, definition gives %r" % (lab[i], j, M_api[i, j], M_ref[i, j]), **case)
+
+
 def run(tier, seed):
     R = Recorder("corpora of 1..3 sequences (incl. empty) of length <= 4 over 3 tokens x sampled combinations of orientation(s), radii, "
                  "window function, kernel, offset/normalize/power, mix weights, normalize_windows (full grid of %d configurations, sampled per corpus); "
@@ -73,10 +107,31 @@ def run(tier, seed):
         elif r < 0.6:
             cfg.update(min_occurrences=2)
         check(R, [seq], cfg, timed=True, tag="timed")
+    # multiset variant (documents = lists of multisets); fixed radii, flat / geometric kernels, kernel offset and normalisation
+    mcfgs = [dict(window_orientations=o, window_radii=r, kernel_functions=k, kernel_args=ka, normalize_windows=nw)
+             for o in ("after", "before", "directional", ["before", "after"]) for r in (0, 1, 2) for k in ("flat", "geometric")
+             for ka in ({}, {"offset": 1}, {"normalize": True}, {"offset": 1, "normalize": True}, {"offset": 2}) for nw in (True, False)]
+    msets = [["a"], ["b"], ["a", "b"], ["c", "a"], ["b", "b", "c"], ["a", "b", "c"]]
+    for _ in range(60 if tier == "quick" else 1200):
+        docs = [[list(rng.choice(msets)) for _j in range(rng.choice([1, 2, 3, 4]))] for _d in range(rng.choice([1, 1, 2]))]
+        cfg = dict(rng.choice(mcfgs))
+        if isinstance(cfg["window_orientations"], list):
+            cfg["window_radii"] = [cfg["window_radii"], max(0, cfg["window_radii"] - 1)]
+        if cfg["kernel_functions"] == "geometric":
+            cfg["kernel_args"] = dict(cfg["kernel_args"], power=0.5)
+        check_multiset(R, docs, cfg)
     return R.result()
 
 
 def replay(case):
+    if case.get("multiset"):
+        R = Recorder("replay")
+        check_multiset(R, case["X"], case["cfg"])
+        return not any(f["id"] == case["id"] for f in R.failures)
+    return _replay_seq(case)
+
+
+def _replay_seq(case):
     R = Recorder("replay")
     X = case["X"]
     if case.get("timed"):
